@@ -208,7 +208,19 @@ func c02History(c *vc.Ctx, idx int) {
 				items = append(items, c02Item{desc: fmt.Sprintf("vote#%d (%s) moved to a fresh %s payload", bk.id, bk.kind, kind), msg: msg, expect: mustFail, class: "moved"})
 			case x < 9: // fails after the signature check: nothing may move
 				var msg voteMsg
-				switch r.Intn(6) {
+				switch r.Intn(8) {
+				case 6, 7: // a fee bump of the last processed batch that pays a wrong script / whose change goes to a foreign key
+					if bm.lastPid >= 0 {
+						wid := bm.wdOfPid[uint64(bm.lastPid)]
+						_, script := wdReq(bm.seed, wid, 0, 0)
+						outs := []*wire.TxOut{wire.NewTxOut(int64(bm.wdAmount-5000), append([]byte{0, 20}, make([]byte, 20)...))}
+						if r.Intn(2) == 0 {
+							outs = []*wire.TxOut{wire.NewTxOut(int64(bm.wdAmount-5000), script), wire.NewTxOut(1000, world.SystemScript(world.BtcPubKey(world.Derive(8, "f", 2), false)))}
+						}
+						tx := bm.bc.FillerTx(outs...)
+						msg = &bitcointypes.MsgReplaceWithdrawal{Proposer: g.Proposer.AddrStr, Pid: uint64(bm.lastPid), NewNoWitnessTx: world.NoWitness(tx), NewTxFee: max(bm.lastFee, bm.maxFee) + 7}
+						c.Count("fee_bumps_that_fail_after_the_signature_check", 1)
+					}
 				case 4: // a consolidation with two outputs
 					tx := bm.bc.FillerTx(wire.NewTxOut(int64(40_000+blk), world.SystemScript(bm.relKey)), wire.NewTxOut(1000, world.SystemScript(bm.relKey)))
 					msg = &bitcointypes.MsgNewConsolidation{Proposer: g.Proposer.AddrStr, NoWitnessTx: world.NoWitness(tx)}
